@@ -973,6 +973,10 @@ func main() {
 			return effectOrder(repo, "pubsub/oneonone/channel.go", "monitorTopic", "monitorTopicOrder", [][2]string{
 				{"next", "sub.Next("}, {"fromtarget", "msg.From() != p"}, {"emit", "c.emitter.Emit("}})
 		}},
+		{"GenConnectCtx", func() string {
+			return effectOrder(repo, "pubsub/oneonone/channel.go", "Connect", "connectCtxOrder", [][2]string{
+				{"chanctx", "context.WithCancel(c.ctx)"}, {"subscribe", "PubSub().Subscribe(subCtx"}, {"leave", "sub.Close()"}})
+		}},
 		{"GenTopic", func() string {
 			return callArgIs(repo, bs, "replicate", "TopicSubscribe", 1, "b.id", "storeTopicIsAddress",
 				"the pubsub topic a store subscribes to is named by its address (b.id), not by anything databases may share")
